@@ -278,6 +278,16 @@ def stepT (c : Cfg) (s : State) (e : Ev) : State :=
 
 def run (c : Cfg) (s : State) (evs : List Ev) : State := evs.foldl (stepT c) s
 
+/-- A `send` / timer callback / set-point during which the DRIVER reports a link error from inside `link.send_packet(pk)`
+(e.g. `RadioDriver.send_packet` when its out queue stays full).  `_link_error_cb`, called by the thread that is inside
+`send_packet`, only records the error (`Gen.C10.errorCbDefersInsideSend`); `send_packet` runs it right after the lock has been
+released (`Gen.C10.sendRunsDeferredErrorAfterRelease`).  So the critical section completes as usual and - if the packet was handed
+to the link at all, otherwise the driver has nothing to report - the same thread then takes a `linkError` step.
+(Other threads may run between the two; that is the event list `[e, …, linkError]`, covered by the theorems about all event lists.) -/
+def stepReportingError (c : Cfg) (s : State) (e : Ev) : State :=
+  let s1 := stepT c s e
+  if s1.log.length > s.log.length then stepT c s1 .linkError else s1
+
 def init : State := {}
 
 /-- `needs_resending` as the drivers set it -/
